@@ -310,17 +310,23 @@ def design_unique(rng, n, edges, all_atom, virtual=(), leftovers=True):
         free[i][k] -= weight
         return k
     for u, v, o in edges:
+        used_pairs = set()
         for _ in range(o):
-            border = 2 if (rng.random() < 0.2 and not cyc) else 1
-            ku = take(u, border, border == 2)
-            kv = take(v, border, border == 2) if ku is not None else None
-            if ku is None or kv is None:
+            for attempt in range(12):
+                border = 2 if (rng.random() < 0.2 and not cyc and attempt < 6) else 1
+                ku = take(u, border, border == 2)
+                kv = take(v, border, border == 2) if ku is not None else None
+                if ku is not None and kv is not None and (ku, kv) not in used_pairs:
+                    break
+                # give the capacity back and try again: two units of one edge never join the same two atoms
                 if ku is not None:
                     free[u][ku] += border
-                border = 1
-                ku, kv = take(u, 1, False), take(v, 1, False)
-                if ku is None or kv is None:
-                    return None
+                if kv is not None:
+                    free[v][kv] += border
+                ku = kv = None
+            if ku is None or kv is None:
+                return None
+            used_pairs.add((ku, kv))
             lab = next(labels)
             if rng.random() < 0.5:
                 du, dv = ('$', lab, border), ('$', lab, border)
